@@ -75,6 +75,11 @@ pub fn crypto_algos(c: &Crypto) -> (bool, Vec<(u8, f32)>) {
     (c.algorithms.allow_unencrypted, ids)
 }
 
+/// the public key a `Crypto` signs with
+pub fn crypto_public_key(c: &Crypto) -> Vec<u8> {
+    c.key_pair.public_key().as_ref().to_vec()
+}
+
 pub fn key_pair_from_seed(seed: &[u8]) -> Arc<Ed25519KeyPair> {
     Arc::new(Ed25519KeyPair::from_seed_unchecked(seed).unwrap())
 }
